@@ -928,7 +928,11 @@ async fn probe(w: Rc<World>, cc: Rc<ClientCtx>, rep: Rc<ProbeReport>) {
     }
     // listeners
     for s in &cc.lis {
-        if let Some(mut bl) = s.take() {
+        if let Some(b) = s.take() {
+            if b.destroyed {
+                continue;
+            }
+            let mut bl = b.bl;
             val();
             r.start("BusListener::next_event");
             let mut n = 0;
